@@ -243,7 +243,8 @@ class BankMachine(Module):
             )
         )
         fsm.act("REFRESH",
-            If(twtpcon.ready,
+            # The refresher precharges all banks once every bank has granted: wait for tRAS too.
+            If(twtpcon.ready & trascon.ready,
                 refresh_gnt.eq(1),
             ),
             row_close.eq(1),
